@@ -226,6 +226,22 @@ def generate(prop, seed, tier="quick", fault_free=False):
                         op["relocate"] = True
                 ops.append(op)
                 bid += 1
+    # constant family: values that are equal in Python but differ in type (1 == 1.0 == True),
+    # captured one after the other in the same process, each with its written-out twin
+    if w.random() < 0.7:
+        v = w.choice([0, 1])
+        tmpl = w.choice(["lambda e: e.x > {c}", "lambda e: e.w * {c} + e.x", "lambda e: (e.x, {c})"])
+        fam = [repr(v), repr(float(v)), repr(bool(v))] + (["-0.0"] if v == 0 else [])
+        w.shuffle(fam)
+        node_a = w.randrange(n_nodes)
+        for c_txt in fam:
+            stages = [["Select", tmpl.format(c=c_txt)]]
+            for mode, node in (("callable", node_a), ("str", w.randrange(n_nodes))):
+                ops.append({"op": "build", "id": bid, "node": node, "variant": "const_family",
+                            "base": -1, "stages": stages, "mode": mode, "layout": w.randrange(8),
+                            "dataset": 0, "post": None, "qmd": False, "exec_before": False,
+                            "want_pickle": False, "hash_early": False, "lift": True})
+                bid += 1
     return {"property": prop, "engine": "hash_cluster", "engine_version": ENGINE_VERSION,
             "seed": seed, "sched_seed": 0, "config": {"nodes": nodes}, "ops": ops}
 
@@ -368,6 +384,8 @@ def execute(case):
             stat("same_spec_pairs")
             if lst[i][0].get("lift") and lst[i][0].get("mode") == "callable":
                 stat("probe_same_spec_captured_constants")
+            if lst[i][0].get("variant") == "const_family":
+                stat("probe_equal_valued_constants_of_other_type")
             if lst[i][1] != lst[0][1] and viol is None:
                 how = _how(lst[0][0], lst[i][0])
                 viol = {"class": "C20/split", "detail": {
